@@ -7,6 +7,15 @@ void GMGPolar::solve()
     LIKWID_START("Solve");
     auto start_solve = std::chrono::high_resolution_clock::now();
 
+    /* ----------------------------------------------- */
+    /* Reset the state that belongs to a single solve() */
+    /* ----------------------------------------------- */
+    residual_norms_.clear();
+    exact_errors_.clear();
+    if (extrapolation_ == ExtrapolationType::COMBINED) {
+        full_grid_smoothing_ = true; /* COMBINED switches it off at run time; every solve starts like the first */
+    }
+
     /* ---------------------------- */
     /* Initialize starting solution */
     /* ---------------------------- */
